@@ -48,6 +48,7 @@ func C02(run *mon.Run) {
 		go func(si int) {
 			defer wg.Done()
 			defer func() { <-sem }()
+			defer run.Protect("c02 worker")
 			r := run.Rand(fmt.Sprintf("shape-%d", si))
 			special := specials[si%len(specials)]
 			n := 1 + r.IntN(maxN)
